@@ -172,6 +172,7 @@ type Obligation struct {
 	Bounded string
 	Cover   bool // goal is a reachability cover: expected SAT
 	Static  string
+	SubBlks  []int    // per sub-goal: the top-level block of the return site (-1: all assumptions)
 	SubGoals []string // when set, the goal is the conjunction of these (one per return site) and each is discharged by its own query
 	Blk     int    // top-level block in which the obligation arises (-1: function exit / unknown)
 	Group   string // proof group: only invariants of the same group (and ungrouped ones) are assumed
